@@ -509,6 +509,53 @@ def _make_from_xml(pc, key, st, where):
     del body
 
 
+UNIT_EMU = {"mm": 36000, "cm": 360000, "in": 914400, "pt": 12700, "pc": 152400, "pi": 152400}
+
+
+def _make_forms_agree(pc, key, st, where):
+    """a union of a plain integer with a percent string ('N%' = N*1000 of the integer's unit, ECMA-376 ST_Percentage) or with a
+    universal measure ('Nmm' ... = EMU): both spellings of one quantity must read as the same value."""
+    name = pc.__name__
+    if not hasattr(pc, "convert_from_xml") or st.variety != "union":
+        return
+    ints = [m for m in st.members if m.prim == "integer" and not m.patterns and m.enum is None]
+    pats = [p for m in st.members for g in m.patterns for p in g]
+    tails = []
+    if any(p.endswith("%") for p in pats):
+        tails.append("%")
+    if any(p.endswith("(mm|cm|in|pt|pc|pi)") for p in pats):
+        tails += sorted(UNIT_EMU)
+    if not ints or not tails:
+        return
+    # DrawingML main: the integer counts 1000ths of a percent; DrawingML chart (ST_LblOffset, ST_Overlap, ST_GapAmount, ...): whole percent
+    pct_unit = 1 if "chart" in (key[0] or "") else 1000
+
+    def replay(model, rec):
+        n = int(model.get("n", 50))
+        t = rec["name"].split("[")[-1].split("]")[0]
+        k = n * (pct_unit if t == "%" else UNIT_EMU[t])
+        a, b = pc.from_xml("%d%s" % (n, t)), pc.from_xml(str(k))
+        same = abs(float(a) - float(b)) <= 1e-9 * max(1.0, abs(float(b)))
+        return {"confirmed": not same, "witness_class": "forms-disagree", "detail": "%s.from_xml(%r) = %r but from_xml(%r) = %r" % (name, "%d%s" % (n, t), a, str(k), b)}
+
+    for t in tails:
+        @contract("C11", "C11.simpletypes.%s.spellings_agree~%s[%s]" % (name, key[1], t), replay=replay)
+        def body(c, pc=pc, t=t, st=st):
+            n = c.int("n")
+            k = n * (pct_unit if t == "%" else UNIT_EMU[t])
+            # both spellings schema-valid: the integer inside the integer member's range, the other matching its pattern
+            c.requires(z3.Or(*[_int_ok(m, k) for m in ints]))
+            c.requires(z3.And(n >= 0, n <= 2000))
+            one = c.call(pc.from_xml, SStr([FmtInt(n), t]))
+            two = c.call(pc.from_xml, SStr([FmtInt(k)]))
+            if one.raised or two.raised:
+                c.ensures("both_spellings_readable", False, why="%s / %s" % (one.exc if one.raised else "ok", two.exc if two.raised else "ok"))
+                return
+            c.ensures("same_value", to_real(one.value) == to_real(two.value))
+
+        del body
+
+
 def _replay_from_xml(pc, key):
     def replay(model, rec):
         import random
@@ -665,6 +712,7 @@ for _pc, _keys, _sts, _where in _WRITE_SITES:
 _rt_done = set()
 for _pc, _key, _st, _where in _READ_PAIRS:
     _make_from_xml(_pc, _key, _st, _where)
+    _make_forms_agree(_pc, _key, _st, _where)
     if _pc not in _rt_done:
         _rt_done.add(_pc)
         _make_roundtrip(_pc, _key, _st, _where)
